@@ -67,6 +67,12 @@ func (a auAuth) Authenticate(user, token string) bool {
 		return true
 	case "no":
 		return false
+	case "slow":
+		// an authenticator that takes its time for one user (a directory that answers late) and then accepts
+		if user == "slow" {
+			<-auGate
+			return true
+		}
 	}
 	return (user == "alice" && token == "secret") || (user == "bob" && token == "") || (user == "" && token == "anon")
 }
@@ -441,9 +447,47 @@ func execAu(op string) func(a []string) string {
 			return auw.frame(int(u(0)), uint8(u(1)), u(2), u(3), u(4), unhx(a[5]))
 		case "burst":
 			return auBurst(a)
+		case "late":
+			return auLate(a)
 		}
 		return "bad-op"
 	}
+}
+
+var auGate chan struct{}
+
+// au.late <milliseconds>: the authenticator needs that long for the credentials of connection A and accepts them;
+// afterwards connection B presents refused credentials and addresses a service: B is refused, whatever became of A
+func auLate(a []string) string {
+	ms, _ := strconv.Atoi(a[0])
+	auGate = make(chan struct{})
+	if r := auReset("slow"); r != "ok" {
+		return r
+	}
+	w := auw
+	A := w.connect()
+	B := w.connect()
+	cred := func(u, t string) []byte {
+		return auMap([]auEntry{{"auth_user", auValStr(u)}, {"auth_token", auValStr(t)}})
+	}
+	w.nextID++
+	h := qnet.Header{Magic: 0x42dead42, ID: w.nextID, Type: qnet.Call, Service: 0, Object: 0, Action: 8}
+	p := cred("slow", "good")
+	h.Size = uint32(len(p))
+	if !w.write(A, qnet.NewMessage(h, p)) {
+		return "setup-error:write"
+	}
+	time.Sleep(time.Duration(ms) * time.Millisecond)
+	close(auGate)
+	time.Sleep(50 * time.Millisecond)
+	r1 := w.frame(1, qnet.Call, 0, 0, 8, cred("mallory", "nope"))
+	r2 := w.frame(1, qnet.Call, 1, 1, 100, nil)
+	_ = B
+	if atomic.LoadInt64(&w.probes) != 0 || strings.HasPrefix(r1, "auth 3") || strings.HasPrefix(r2, "probe") {
+		lastFailDetail = "authenticate(mallory, nope) => " + r1 + "; call => " + r2
+		return "fail:a-connection-with-refused-credentials-reached-a-service"
+	}
+	return "ok"
 }
 
 // au.burst <kind> <n> <seed>: a fresh server; on a fresh connection n frames without accepted
@@ -510,7 +554,7 @@ loop:
 }
 
 func init() {
-	for _, op := range []string{"reset", "connect", "frame", "burst"} {
+	for _, op := range []string{"reset", "connect", "frame", "burst", "late"} {
 		executors["au."+op] = execAu(op)
 	}
 	runners["C06"] = runC06
@@ -629,5 +673,17 @@ func runC06(r *Rand, tier string, o *Out) {
 			o.Fail("unauthenticated connection reached a service", line+" => "+out)
 		}
 		o.Count("burst")
+	}
+	// an authenticator that answers late, for another connection
+	lates := []int{2600}
+	if tier == "thorough" {
+		lates = []int{100, 1200, 2600, 5200}
+	}
+	for _, ms := range lates {
+		line := fmt.Sprintf("au.late %d", ms)
+		if out := o.Do("P", line, true); out != "ok" {
+			o.Fail("a late verdict of the authenticator served another connection", line+" => "+out+" "+lastFailDetail)
+		}
+		o.Count("scenario:authenticator-answers-late")
 	}
 }
